@@ -5,19 +5,19 @@ Open Scope Z_scope.
    options / a needed dial that fails => error; a rejected update changes
    nothing observable; no route panics or selects a closed pool before Close;
    Close and a failed construction leave no open connection and no monitor. *)
-Theorem C16_holds : forall o fails oracle ops, C16_ok (gtrace o fails oracle ops) = true.
+Theorem C16_holds : forall o fails oracle readys ops, C16_ok (gtrace o fails oracle readys ops) = true.
 Proof. exact C16_holds_proof. Qed.
 Print Assumptions C16_holds.
 
-Theorem update_error_cases : forall s o fails oracle s' out,
-  gupdate s o fails oracle = (s', out) -> og_err out = expected_err (gobserve s) o fails.
+Theorem update_error_cases : forall s o fails oracle readys s' out,
+  gupdate s o fails oracle readys = (s', out) -> og_err out = expected_err (gobserve s) o fails.
 Proof. exact update_error_cases_proof. Qed.
 Print Assumptions update_error_cases.
 
 (* holds in EVERY state, reachable or not: a rejected update is the identity
    on everything but the dial counter, whatever the map iteration order *)
-Theorem failed_update_identity : forall s o fails oracle s' out,
-  gupdate s o fails oracle = (s', out) -> og_err out <> 0 ->
+Theorem failed_update_identity : forall s o fails oracle readys s' out,
+  gupdate s o fails oracle readys = (s', out) -> og_err out <> 0 ->
   g_mes s' = g_mes s /\ g_pools s' = g_pools s /\ g_default s' = g_default s /\
   g_closed s' = g_closed s /\ gobserve s' = gobserve s /\
   g_dials s' = (g_dials s + N.of_nat (length (og_dials out)))%N.
@@ -37,8 +37,8 @@ Theorem close_releases_all : forall s,
 Proof. exact close_releases_all_proof. Qed.
 Print Assumptions close_releases_all.
 
-Theorem failed_new_releases_all : forall o fails oracle s1 out,
-  gupdate (ginit o) o fails oracle = (s1, out) -> og_err out <> 0 ->
+Theorem failed_new_releases_all : forall o fails oracle readys s1 out,
+  gupdate (ginit o) o fails oracle readys = (s1, out) -> og_err out <> 0 ->
   g_mes s1 = [] /\ g_pools s1 = [] /\ ob_open (gobserve s1) = [] /\ ob_census (gobserve s1) = 0 /\
   gobs_same (gobserve s1) obs_none = true.
 Proof. exact failed_new_releases_all_proof. Qed.
@@ -51,24 +51,24 @@ Print Assumptions failed_new_releases_all.
 Example c16_model_errors :
   let ok := Some (mkMO [1%N; 2%N] 0 0) in
   let o1 := mkGO 1 [(1%N, ok); (2%N, Some (mkMO [3%N] 0 0))] in
-  let ops := [ GUpdate (mkGO 7 [(1%N, ok)]) [] [];                                    (* default without options *)
-               GUpdate (mkGO 1 [(1%N, ok); (2%N, None)]) [] [];                        (* nil options *)
-               GUpdate (mkGO 1 [(2%N, Some (mkMO [] 0 0)); (1%N, ok)]) [] [];          (* empty list, existing name, first *)
-               GUpdate (mkGO 1 [(1%N, ok); (5%N, Some (mkMO [] 0 0))]) [] [];          (* empty list, new name, last *)
-               GUpdate (mkGO 1 [(1%N, Some (mkMO [4%N; 5%N; 6%N] 0 0))]) [5%N] [6%N; 5%N; 4%N];   (* second dial fails *)
-               GUpdate (mkGO 1 [(1%N, Some (mkMO [2%N] 0 0))]) [9%N] [];               (* failing endpoint not needed *)
+  let ops := [ GUpdate (mkGO 7 [(1%N, ok)]) [] [] [];                                    (* default without options *)
+               GUpdate (mkGO 1 [(1%N, ok); (2%N, None)]) [] [] [];                        (* nil options *)
+               GUpdate (mkGO 1 [(2%N, Some (mkMO [] 0 0)); (1%N, ok)]) [] [] [];          (* empty list, existing name, first *)
+               GUpdate (mkGO 1 [(1%N, ok); (5%N, Some (mkMO [] 0 0))]) [] [] [];          (* empty list, new name, last *)
+               GUpdate (mkGO 1 [(1%N, Some (mkMO [4%N; 5%N; 6%N] 0 0))]) [5%N] [6%N; 5%N; 4%N] [];   (* second dial fails *)
+               GUpdate (mkGO 1 [(1%N, Some (mkMO [2%N] 0 0))]) [9%N] [] [];               (* failing endpoint not needed *)
                GClose ] in
-  let tr := gtrace o1 [] [] ops in
+  let tr := gtrace o1 [] [] [] ops in
   map (fun ev => og_err (ge_out ev)) tr = [0; 1; 2; 2; 2; 3; 0; 0] /\
   map (fun ev => og_dials (ge_out ev)) tr =
     [[(1%N, true); (2%N, true); (3%N, true)]; []; []; []; []; [(6%N, true); (5%N, false)]; []; []] /\
-  map (fun ev => gobs_eqb (ge_obs ev) (gobserve (fst (gupdate (ginit o1) o1 [] [])))) tr =
+  map (fun ev => gobs_eqb (ge_obs ev) (gobserve (fst (gupdate (ginit o1) o1 [] [] [])))) tr =
     [true; true; true; true; true; true; false; false] /\
   map (fun ev => (ob_open (ge_obs ev), ob_census (ge_obs ev))) tr =
     [([0; 1; 2]%N, 3); ([0; 1; 2]%N, 3); ([0; 1; 2]%N, 3); ([0; 1; 2]%N, 3); ([0; 1; 2]%N, 3); ([0; 1; 2]%N, 3);
      ([1]%N, 1); ([], 0)] /\
-  gtrace (mkGO 1 [(1%N, ok); (2%N, Some (mkMO [] 0 0))]) [] [] ops =
-    [mkGE (GUpdate (mkGO 1 [(1%N, ok); (2%N, Some (mkMO [] 0 0))]) [] []) (mkGOut 2 [] 0)
+  gtrace (mkGO 1 [(1%N, ok); (2%N, Some (mkMO [] 0 0))]) [] [] [] ops =
+    [mkGE (GUpdate (mkGO 1 [(1%N, ok); (2%N, Some (mkMO [] 0 0))]) [] [] []) (mkGOut 2 [] 0)
           (mkGobs [] [] 1 (map (fun c => (c, RPanic)) probes) [] 0)] /\
   C16_ok tr = true /\ C15_ok tr = true.
 Proof. vm_compute. repeat split; reflexivity. Qed.
@@ -77,30 +77,30 @@ Proof. vm_compute. repeat split; reflexivity. Qed.
    d7d7c87, histories of corpus/gme) are rejected by the monitor.
    G2: existing MultiEndpoint 2 given an empty list: no error, its pool closed, route "2" panics. *)
 Example c16_bad_G2_empty_list_existing : C16_ok
-  [mkGE (GUpdate (mkGO 1%N [(1%N, (Some (mkMO [1%N] (0)%Z (0)%Z))); (2%N, (Some (mkMO [2%N] (0)%Z (0)%Z)))]) [] [1%N; 2%N]) (mkGOut (0)%Z [(1%N, true); (2%N, true)] (0)%Z) (mkGobs [mkOme 1%N 1%N [mkOep 1%N (0)%Z (0)%Z (-1)%Z]; mkOme 2%N 2%N [mkOep 2%N (0)%Z (0)%Z (-1)%Z]] [mkOpool 1%N 0%N true false; mkOpool 2%N 1%N true false] 1%N [(None, RPool 1%N 0%N true); ((Some 0%N), RPool 1%N 0%N true); ((Some 1%N), RPool 1%N 0%N true); ((Some 2%N), RPool 2%N 1%N true); ((Some 3%N), RPool 1%N 0%N true); ((Some 4%N), RPool 1%N 0%N true); ((Some 9%N), RPool 1%N 0%N true)] [0%N; 1%N] (2)%Z)
-   ; mkGE (GUpdate (mkGO 1%N [(1%N, (Some (mkMO [1%N] (0)%Z (0)%Z))); (2%N, (Some (mkMO [] (0)%Z (0)%Z)))]) [] []) (mkGOut (0)%Z [] (0)%Z) (mkGobs [mkOme 1%N 1%N [mkOep 1%N (0)%Z (0)%Z (-1)%Z]; mkOme 2%N 2%N [mkOep 2%N (0)%Z (0)%Z (-1)%Z]] [mkOpool 1%N 0%N true false] 1%N [(None, RPool 1%N 0%N true); ((Some 0%N), RPool 1%N 0%N true); ((Some 1%N), RPool 1%N 0%N true); ((Some 2%N), RPanic); ((Some 3%N), RPool 1%N 0%N true); ((Some 4%N), RPool 1%N 0%N true); ((Some 9%N), RPool 1%N 0%N true)] [0%N] (1)%Z)] = false.
+  [mkGE (GUpdate (mkGO 1%N [(1%N, (Some (mkMO [1%N] (0)%Z (0)%Z))); (2%N, (Some (mkMO [2%N] (0)%Z (0)%Z)))]) [] [1%N; 2%N] []) (mkGOut (0)%Z [(1%N, true); (2%N, true)] (0)%Z) (mkGobs [mkOme 1%N 1%N [mkOep 1%N (0)%Z (0)%Z (-1)%Z]; mkOme 2%N 2%N [mkOep 2%N (0)%Z (0)%Z (-1)%Z]] [mkOpool 1%N 0%N true false; mkOpool 2%N 1%N true false] 1%N [(None, RPool 1%N 0%N true); ((Some 0%N), RPool 1%N 0%N true); ((Some 1%N), RPool 1%N 0%N true); ((Some 2%N), RPool 2%N 1%N true); ((Some 3%N), RPool 1%N 0%N true); ((Some 4%N), RPool 1%N 0%N true); ((Some 9%N), RPool 1%N 0%N true)] [0%N; 1%N] (2)%Z)
+   ; mkGE (GUpdate (mkGO 1%N [(1%N, (Some (mkMO [1%N] (0)%Z (0)%Z))); (2%N, (Some (mkMO [] (0)%Z (0)%Z)))]) [] [] []) (mkGOut (0)%Z [] (0)%Z) (mkGobs [mkOme 1%N 1%N [mkOep 1%N (0)%Z (0)%Z (-1)%Z]; mkOme 2%N 2%N [mkOep 2%N (0)%Z (0)%Z (-1)%Z]] [mkOpool 1%N 0%N true false] 1%N [(None, RPool 1%N 0%N true); ((Some 0%N), RPool 1%N 0%N true); ((Some 1%N), RPool 1%N 0%N true); ((Some 2%N), RPanic); ((Some 3%N), RPool 1%N 0%N true); ((Some 4%N), RPool 1%N 0%N true); ((Some 9%N), RPool 1%N 0%N true)] [0%N] (1)%Z)] = false.
 Proof. vm_compute; reflexivity. Qed.
 
 (* G2, second facet: nil options panic inside UpdateMultiEndpoints (code 9) *)
 Example c16_bad_G2_nil_options_panic : C16_ok
-  [mkGE (GUpdate (mkGO 1%N [(1%N, (Some (mkMO [1%N] (0)%Z (0)%Z))); (2%N, (Some (mkMO [2%N] (0)%Z (0)%Z)))]) [] [1%N; 2%N]) (mkGOut (0)%Z [(1%N, true); (2%N, true)] (0)%Z) (mkGobs [mkOme 1%N 1%N [mkOep 1%N (0)%Z (0)%Z (-1)%Z]; mkOme 2%N 2%N [mkOep 2%N (0)%Z (0)%Z (-1)%Z]] [mkOpool 1%N 0%N true false; mkOpool 2%N 1%N true false] 1%N [(None, RPool 1%N 0%N true); ((Some 0%N), RPool 1%N 0%N true); ((Some 1%N), RPool 1%N 0%N true); ((Some 2%N), RPool 2%N 1%N true); ((Some 3%N), RPool 1%N 0%N true); ((Some 4%N), RPool 1%N 0%N true); ((Some 9%N), RPool 1%N 0%N true)] [0%N; 1%N] (2)%Z)
-   ; mkGE (GUpdate (mkGO 1%N [(1%N, (Some (mkMO [1%N] (0)%Z (0)%Z))); (2%N, None)]) [] []) (mkGOut (9)%Z [] (0)%Z) (mkGobs [mkOme 1%N 1%N [mkOep 1%N (0)%Z (0)%Z (-1)%Z]; mkOme 2%N 2%N [mkOep 2%N (0)%Z (0)%Z (-1)%Z]] [mkOpool 1%N 0%N true false; mkOpool 2%N 1%N true false] 1%N [(None, RPool 1%N 0%N true); ((Some 0%N), RPool 1%N 0%N true); ((Some 1%N), RPool 1%N 0%N true); ((Some 2%N), RPool 2%N 1%N true); ((Some 3%N), RPool 1%N 0%N true); ((Some 4%N), RPool 1%N 0%N true); ((Some 9%N), RPool 1%N 0%N true)] [0%N; 1%N] (2)%Z)] = false.
+  [mkGE (GUpdate (mkGO 1%N [(1%N, (Some (mkMO [1%N] (0)%Z (0)%Z))); (2%N, (Some (mkMO [2%N] (0)%Z (0)%Z)))]) [] [1%N; 2%N] []) (mkGOut (0)%Z [(1%N, true); (2%N, true)] (0)%Z) (mkGobs [mkOme 1%N 1%N [mkOep 1%N (0)%Z (0)%Z (-1)%Z]; mkOme 2%N 2%N [mkOep 2%N (0)%Z (0)%Z (-1)%Z]] [mkOpool 1%N 0%N true false; mkOpool 2%N 1%N true false] 1%N [(None, RPool 1%N 0%N true); ((Some 0%N), RPool 1%N 0%N true); ((Some 1%N), RPool 1%N 0%N true); ((Some 2%N), RPool 2%N 1%N true); ((Some 3%N), RPool 1%N 0%N true); ((Some 4%N), RPool 1%N 0%N true); ((Some 9%N), RPool 1%N 0%N true)] [0%N; 1%N] (2)%Z)
+   ; mkGE (GUpdate (mkGO 1%N [(1%N, (Some (mkMO [1%N] (0)%Z (0)%Z))); (2%N, None)]) [] [] []) (mkGOut (9)%Z [] (0)%Z) (mkGobs [mkOme 1%N 1%N [mkOep 1%N (0)%Z (0)%Z (-1)%Z]; mkOme 2%N 2%N [mkOep 2%N (0)%Z (0)%Z (-1)%Z]] [mkOpool 1%N 0%N true false; mkOpool 2%N 1%N true false] 1%N [(None, RPool 1%N 0%N true); ((Some 0%N), RPool 1%N 0%N true); ((Some 1%N), RPool 1%N 0%N true); ((Some 2%N), RPool 2%N 1%N true); ((Some 3%N), RPool 1%N 0%N true); ((Some 4%N), RPool 1%N 0%N true); ((Some 9%N), RPool 1%N 0%N true)] [0%N; 1%N] (2)%Z)] = false.
 Proof. vm_compute; reflexivity. Qed.
 
 (* G3: the update is rejected (code 2) after pools 2,3,4 were created *)
 Example c16_bad_G3_rejected_not_atomic : C16_ok
-  [mkGE (GUpdate (mkGO 1%N [(1%N, (Some (mkMO [1%N] (0)%Z (0)%Z)))]) [] [1%N]) (mkGOut (0)%Z [(1%N, true)] (0)%Z) (mkGobs [mkOme 1%N 1%N [mkOep 1%N (0)%Z (0)%Z (-1)%Z]] [mkOpool 1%N 0%N true false] 1%N [(None, RPool 1%N 0%N true); ((Some 0%N), RPool 1%N 0%N true); ((Some 1%N), RPool 1%N 0%N true); ((Some 2%N), RPool 1%N 0%N true); ((Some 3%N), RPool 1%N 0%N true); ((Some 4%N), RPool 1%N 0%N true); ((Some 9%N), RPool 1%N 0%N true)] [0%N] (1)%Z)
-   ; mkGE (GUpdate (mkGO 1%N [(1%N, (Some (mkMO [2%N; 3%N] (0)%Z (0)%Z))); (2%N, (Some (mkMO [] (0)%Z (0)%Z))); (3%N, (Some (mkMO [4%N] (0)%Z (0)%Z)))]) [] [2%N; 3%N; 4%N]) (mkGOut (2)%Z [(2%N, true); (3%N, true); (4%N, true)] (0)%Z) (mkGobs [mkOme 1%N 2%N [mkOep 2%N (0)%Z (0)%Z (-1)%Z; mkOep 3%N (1)%Z (0)%Z (-1)%Z]] [mkOpool 1%N 0%N true false; mkOpool 2%N 1%N true false; mkOpool 3%N 2%N true false; mkOpool 4%N 3%N true false] 1%N [(None, RPool 2%N 1%N true); ((Some 0%N), RPool 2%N 1%N true); ((Some 1%N), RPool 2%N 1%N true); ((Some 2%N), RPool 2%N 1%N true); ((Some 3%N), RPool 2%N 1%N true); ((Some 4%N), RPool 2%N 1%N true); ((Some 9%N), RPool 2%N 1%N true)] [0%N; 1%N; 2%N; 3%N] (4)%Z)] = false.
+  [mkGE (GUpdate (mkGO 1%N [(1%N, (Some (mkMO [1%N] (0)%Z (0)%Z)))]) [] [1%N] []) (mkGOut (0)%Z [(1%N, true)] (0)%Z) (mkGobs [mkOme 1%N 1%N [mkOep 1%N (0)%Z (0)%Z (-1)%Z]] [mkOpool 1%N 0%N true false] 1%N [(None, RPool 1%N 0%N true); ((Some 0%N), RPool 1%N 0%N true); ((Some 1%N), RPool 1%N 0%N true); ((Some 2%N), RPool 1%N 0%N true); ((Some 3%N), RPool 1%N 0%N true); ((Some 4%N), RPool 1%N 0%N true); ((Some 9%N), RPool 1%N 0%N true)] [0%N] (1)%Z)
+   ; mkGE (GUpdate (mkGO 1%N [(1%N, (Some (mkMO [2%N; 3%N] (0)%Z (0)%Z))); (2%N, (Some (mkMO [] (0)%Z (0)%Z))); (3%N, (Some (mkMO [4%N] (0)%Z (0)%Z)))]) [] [2%N; 3%N; 4%N] []) (mkGOut (2)%Z [(2%N, true); (3%N, true); (4%N, true)] (0)%Z) (mkGobs [mkOme 1%N 2%N [mkOep 2%N (0)%Z (0)%Z (-1)%Z; mkOep 3%N (1)%Z (0)%Z (-1)%Z]] [mkOpool 1%N 0%N true false; mkOpool 2%N 1%N true false; mkOpool 3%N 2%N true false; mkOpool 4%N 3%N true false] 1%N [(None, RPool 2%N 1%N true); ((Some 0%N), RPool 2%N 1%N true); ((Some 1%N), RPool 2%N 1%N true); ((Some 2%N), RPool 2%N 1%N true); ((Some 3%N), RPool 2%N 1%N true); ((Some 4%N), RPool 2%N 1%N true); ((Some 9%N), RPool 2%N 1%N true)] [0%N; 1%N; 2%N; 3%N] (4)%Z)] = false.
 Proof. vm_compute; reflexivity. Qed.
 
 (* G4: failed construction leaves two open connections and two monitor goroutines *)
 Example c16_bad_G4_failed_new_leaks : C16_ok
-  [mkGE (GUpdate (mkGO 1%N [(1%N, (Some (mkMO [1%N; 2%N] (0)%Z (0)%Z))); (2%N, (Some (mkMO [] (0)%Z (0)%Z)))]) [] [1%N; 2%N]) (mkGOut (2)%Z [(1%N, true); (2%N, true)] (0)%Z) (mkGobs [] [] 1%N [(None, RPanic); ((Some 0%N), RPanic); ((Some 1%N), RPanic); ((Some 2%N), RPanic); ((Some 3%N), RPanic); ((Some 4%N), RPanic); ((Some 9%N), RPanic)] [0%N; 1%N] (2)%Z)] = false.
+  [mkGE (GUpdate (mkGO 1%N [(1%N, (Some (mkMO [1%N; 2%N] (0)%Z (0)%Z))); (2%N, (Some (mkMO [] (0)%Z (0)%Z)))]) [] [1%N; 2%N] []) (mkGOut (2)%Z [(1%N, true); (2%N, true)] (0)%Z) (mkGobs [] [] 1%N [(None, RPanic); ((Some 0%N), RPanic); ((Some 1%N), RPanic); ((Some 2%N), RPanic); ((Some 3%N), RPanic); ((Some 4%N), RPanic); ((Some 9%N), RPanic)] [0%N; 1%N] (2)%Z)] = false.
 Proof. vm_compute; reflexivity. Qed.
 
 (* hand-made: Close leaves a monitor running *)
 Example c16_bad_close_leaves_monitor : C16_ok
-  [mkGE (GUpdate (mkGO 1%N [(1%N, Some (mkMO [1%N] 0 0))]) [] [1%N]) (mkGOut 0 [(1%N, true)] 0)
+  [mkGE (GUpdate (mkGO 1%N [(1%N, Some (mkMO [1%N] 0 0))]) [] [1%N] []) (mkGOut 0 [(1%N, true)] 0)
         (mkGobs [mkOme 1 1 [mkOep 1 0 0 (-1)]] [mkOpool 1 0 true false] 1
                 (map (fun c => (c, RPool 1 0 true)) probes) [0%N] 1);
    mkGE GClose (mkGOut 0 [] 0)
@@ -109,7 +109,7 @@ Example c16_bad_close_leaves_monitor : C16_ok
 Proof. vm_compute; reflexivity. Qed.
 
 Example c16_good_close : C16_ok
-  [mkGE (GUpdate (mkGO 1%N [(1%N, Some (mkMO [1%N] 0 0))]) [] [1%N]) (mkGOut 0 [(1%N, true)] 0)
+  [mkGE (GUpdate (mkGO 1%N [(1%N, Some (mkMO [1%N] 0 0))]) [] [1%N] []) (mkGOut 0 [(1%N, true)] 0)
         (mkGobs [mkOme 1 1 [mkOep 1 0 0 (-1)]] [mkOpool 1 0 true false] 1
                 (map (fun c => (c, RPool 1 0 true)) probes) [0%N] 1);
    mkGE GClose (mkGOut 0 [] 0)
